@@ -70,7 +70,9 @@ pub fn fixed_programs() -> Vec<(String, Vec<Stmt>)> {
         ("stdgates-arity", vec![inc(), qd("q"), qd("r"), call("h", None, vec![o("q")]), call("cx", None, vec![o("q")]), call("cx", None, vec![o("q"), o("r")]), call("rz", None, vec![o("q")]), call("rz", Some(vec![int(1)]), vec![o("q")]), call("h", Some(vec![int(1)]), vec![o("q")]), call("ccx", None, vec![o("q"), o("r")]), call("cu", Some(vec![int(1), int(2), int(3), int(4)]), vec![o("q"), o("r")])]),
         ("stdgates-not-included", vec![qd("q"), call("h", None, vec![o("q")])]),
         ("double-include", vec![inc(), inc(), qd("q"), call("h", None, vec![o("q")])]),
-        ("user-gate-then-include", vec![Stmt::Gate { name: "h".into(), params: None, qubits: vec!["a".into()], body: vec![] }, inc()]),
+        ("user-gate-then-include", vec![Stmt::Gate { name: "h".into(), params: Some(vec!["t".into()]), qubits: vec!["a".into()], body: vec![] }, inc(), qd("r"), call("h", Some(vec![Expr::Float("0.5".into())]), vec![o("r")]), call("x", None, vec![o("r")])]),
+        ("user-variable-then-include", vec![decl(Ty::Int(None), "x", Some(int(1))), decl(Ty::Int(None), "cx", None), inc(), asg("x", Expr::Cast(Ty::Int(None), bx(int(2)))), decl(Ty::Int(None), "y", Some(id("cx")))]),
+        ("double-include-uses", vec![inc(), qd("q"), call("h", None, vec![o("q")]), inc(), call("h", None, vec![o("q")]), call("cx", None, vec![o("q"), o("q")])]),
         ("inv-pow-arity", vec![inc(), qd("q"), qd("r"), Stmt::GateCall { mods: vec![Modifier::Inv], name: "h".into(), args: None, operands: vec![o("q"), o("r")] }, Stmt::GateCall { mods: vec![Modifier::Pow(int(2)), Modifier::Inv], name: "rz".into(), args: None, operands: vec![o("q")] }, Stmt::GateCall { mods: vec![Modifier::Inv, Modifier::Pow(int(3))], name: "cx".into(), args: None, operands: vec![o("q"), o("r")] }]),
         ("modifier-order", vec![inc(), qr("q", 4), Stmt::GateCall { mods: vec![Modifier::Inv, Modifier::Pow(int(2)), Modifier::Ctrl(None), Modifier::NegCtrl(Some(int(2)))], name: "x".into(), args: None, operands: vec![oi("q", 0), oi("q", 1), oi("q", 2), oi("q", 3)] }]),
         ("non-gate-callee", vec![decl(Ty::Int(None), "a", None), qd("q"), call("a", None, vec![o("q")]), call("q", None, vec![o("q")])]),
